@@ -1,6 +1,7 @@
 (** C15 — equal?/eqv?/hash coherence; hash tables are finite maps: property theorems only. *)
 From Coq Require Import List ZArith Bool.
-From ChibiV Require Import Common.Words Gen.C15_Consts C15.Table C15.TableProofs C15.Obj C15.ObjProofs C15.ObjEqual C15.Combined.
+From ChibiV Require Import Common.Words Gen.C15_Consts C15.Table C15.TableProofs C15.Obj C15.ObjProofs C15.ObjEqual C15.Graph Gen.C15_Equiv C15.Combined.
+From ChibiV Require C15.GraphProofs.
 Import ListNotations.
 Local Open Scope Z_scope.
 
@@ -117,3 +118,44 @@ Theorem object_tables_are_maps : forall (V : Type) (ops : list (@op okey V)) (k 
   tref okey_hash okey_eq (run_table okey_hash okey_eq ops) k = mref okey_eq (run_map okey_eq ops) k.
 Proof. exact Combined.object_tables_are_maps. Qed.
 Print Assumptions object_tables_are_maps.
+
+(** ---- data with sharing and cycles: the slow path of (scheme base) equal?, lib/chibi/equiv.scm, REGENERATED
+    into Gen/C15_Equiv.v; SPEC = bisimilarity of the two rooted graphs (same possibly infinite unfolding) *)
+
+(** equiv? terminates on every finite graph, cyclic or not, within the fuel |g|^2 + 1 *)
+Theorem equiv_terminates : forall (L : Type) (leq : L -> L -> bool) (g : list (node L)) (a b : nat),
+  fst (equiv leq g (equiv_fuel g) a b []) <> None.
+Proof. exact @GraphProofs.equiv_terminates. Qed.
+Print Assumptions equiv_terminates.
+
+(** #t only for bisimilar data (closed graph, leaf comparison reflexive and transitive on the leaves present) *)
+Theorem equiv_sound : forall (L : Type) (leq : L -> L -> bool) (g : list (node L)) (a b : nat),
+  wfg g -> GraphProofs.leaves_ok leq g -> (a < length g)%nat -> (b < length g)%nat ->
+  fst (equiv leq g (equiv_fuel g) a b []) = Some true -> bisim leq g a b.
+Proof. exact @GraphProofs.equiv_sound_thm. Qed.
+Print Assumptions equiv_sound.
+
+(** bisimilar data are answered #t (no hypothesis on the graph at all) *)
+Theorem equiv_complete : forall (L : Type) (leq : L -> L -> bool) (g : list (node L)) (a b : nat),
+  bisim leq g a b -> fst (equiv leq g (equiv_fuel g) a b []) = Some true.
+Proof. exact @GraphProofs.equiv_complete_thm. Qed.
+Print Assumptions equiv_complete.
+
+(** composition with the bounded C pass (any answer that is sound in its two definite cases) *)
+Theorem equal_total_correct : forall (L : Type) (leq : L -> L -> bool) (g : list (node L)) (res : option Z) (a b : nat),
+  wfg g -> GraphProofs.leaves_ok leq g -> (a < length g)%nat -> (b < length g)%nat -> GraphProofs.bounded_sound leq g res a b ->
+  (equal_top leq g res a b = Some true <-> bisim leq g a b) /\
+  (equal_top leq g res a b = Some false <-> ~ bisim leq g a b) /\
+  equal_top leq g res a b <> None.
+Proof. exact @GraphProofs.equal_total_correct. Qed.
+Print Assumptions equal_total_correct.
+
+(** the same with the leaves of Obj.v compared by the model of the core equal? *)
+Theorem equal_on_object_graphs : forall (g : list (node obj)) res a b,
+  wfg g -> (forall l, In (NLeaf l) g -> wf l /\ inb l) -> (a < length g)%nat -> (b < length g)%nat ->
+  GraphProofs.bounded_sound equalb g res a b ->
+  (equal_top equalb g res a b = Some true <-> bisim equalb g a b) /\
+  (equal_top equalb g res a b = Some false <-> ~ bisim equalb g a b) /\
+  equal_top equalb g res a b <> None.
+Proof. exact Combined.equal_on_object_graphs. Qed.
+Print Assumptions equal_on_object_graphs.
